@@ -105,10 +105,13 @@ func (f *IPForwarder) Run(ctx context.Context) error {
 			continue
 		}
 
-		if packet.ErrorLayer() != nil {
+		// Only the IP header has to be well-formed. What the packet carries is
+		// opaque to the gateway: gopacket has no decoder for many IP protocols and
+		// rejects transport or application payloads it cannot make sense of, and
+		// such packets must be forwarded like any other.
+		if err := checkNetworkHeader(buf[:length]); err != nil {
 			metrics.CounterInc(f.Metrics.IPPktsInvalid)
-			logger.Debug("forwarder: failed to parse packet",
-				"err", packet.ErrorLayer().Error())
+			logger.Debug("forwarder: failed to parse packet", "err", err)
 			continue
 		}
 
@@ -131,6 +134,19 @@ func (f *IPForwarder) Run(ctx context.Context) error {
 		}
 
 		session.Write(packet)
+	}
+}
+
+// checkNetworkHeader decodes the IP header of a raw packet (and nothing above
+// it) and returns the error, if any.
+func checkNetworkHeader(b []byte) error {
+	switch b[0] >> 4 {
+	case 4:
+		return (&layers.IPv4{}).DecodeFromBytes(b, gopacket.NilDecodeFeedback)
+	case 6:
+		return (&layers.IPv6{}).DecodeFromBytes(b, gopacket.NilDecodeFeedback)
+	default:
+		return serrors.New("unknown IP version")
 	}
 }
 
